@@ -175,28 +175,30 @@ Print Assumptions C07_query_sound.
    every reachable cache state. *)
 Theorem C07_proxy_access_agree :
   forall (A : Type) (feat : list A) (bmap : list Z) (is_scalar : bool)
-         (mapped : list A),
+         (cast : A -> A) (mapped : list A),
     gather feat bmap = Some mapped ->
     forall (cache : option (list A)) (ac : access),
       (cache = None \/ (is_scalar = true /\ cache = Some mapped)) ->
-      snd (proxy_access A feat bmap is_scalar cache ac)
-      = direct_access mapped ac /\
-      (fst (proxy_access A feat bmap is_scalar cache ac) = None \/
+      snd (proxy_access A feat bmap is_scalar cast cache ac)
+      = direct_access cast mapped ac /\
+      (fst (proxy_access A feat bmap is_scalar cast cache ac) = None \/
        (is_scalar = true /\
-        fst (proxy_access A feat bmap is_scalar cache ac) = Some mapped)).
+        fst (proxy_access A feat bmap is_scalar cast cache ac)
+        = Some mapped)).
 Proof. exact @proxy_access_agree. Qed.
 Print Assumptions C07_proxy_access_agree.
 
-(* The whole export step (Export.hdf5 with basins=True, filtered=True, from a
-   file or from a hierarchy child of any depth, any feature list): in a
-   consistent store whose basins refer to files of the store, the exported
-   file is consistent for the filtered origin events of its source: its
-   stored features are the origin's, and every basin definition written
-   refers to a basinmap feature that holds exactly the composed map. *)
+(* The whole export step (Export.hdf5 with basins=True; filtered with any
+   filter incl. an empty selection, or filtered=False; from a file or from a
+   hierarchy child of any depth; any feature list): in a consistent, acyclic
+   store the exported file is consistent for the selected origin events of
+   its source: its stored features are the origin's, and every basin
+   definition written refers to a basinmap feature that holds exactly the
+   composed map ("same" basins are only kept when nothing is filtered). *)
 Theorem C07_export_file_sound :
   forall (truth : Z -> list Z) (omap : nat -> list Z) (st : store)
          (src : nat) (root : file) (pfilts : list (list bool))
-         (filt : list bool) (feats : option (list Z)) (fl' : file)
+         (filt : option (list bool)) (feats : option (list Z)) (fl' : file)
          (cv : list Z),
     store_sound truth omap st ->
     scoped st ->
@@ -208,20 +210,20 @@ Theorem C07_export_file_sound :
                        gather (omap src) idx = Some cv
     end ->
     export st src pfilts filt feats = Some fl' ->
-    file_sound truth (omap_ext omap (length st) (mask filt cv))
+    file_sound truth (omap_ext omap (length st) (fmask filt cv))
                (st ++ [Some fl']) (length st) fl' /\
-    f_n fl' = count_true filt /\ length (f_slots fl') = 10%nat /\
-    zlen cv = zlen filt /\
+    f_n fl' = zlen (fmask filt cv) /\ length (f_slots fl') = 10%nat /\
+    match filt with Some f => zlen cv = zlen f | None => True end /\
     (forall b, In b (f_basins fl') -> (b_target b < length st)%nat).
 Proof. exact export_sound. Qed.
 Print Assumptions C07_export_file_sound.
 
-(* ... hence export maps a consistent store to a consistent store (the
-   inductive step for pipelines of any length and shape). *)
+(* ... hence export maps a consistent acyclic store to a consistent acyclic
+   store (the inductive step for pipelines of any length and shape). *)
 Theorem C07_export_store_sound :
   forall (truth : Z -> list Z) (omap : nat -> list Z) (st : store)
          (src : nat) (root : file) (pfilts : list (list bool))
-         (filt : list bool) (feats : option (list Z)) (fl' : file)
+         (filt : option (list bool)) (feats : option (list Z)) (fl' : file)
          (cv : list Z),
     store_sound truth omap st ->
     scoped st ->
@@ -233,11 +235,100 @@ Theorem C07_export_store_sound :
                        gather (omap src) idx = Some cv
     end ->
     export st src pfilts filt feats = Some fl' ->
-    store_sound truth (omap_ext omap (length st) (mask filt cv))
+    store_sound truth (omap_ext omap (length st) (fmask filt cv))
                 (st ++ [Some fl']) /\
     scoped (st ++ [Some fl']).
 Proof. exact export_store_sound. Qed.
 Print Assumptions C07_export_store_sound.
+
+(* Base case: the empty store is consistent, and a file written by hand
+   (stored features = the origin's at the events [new]; any sequence of
+   store_basin calls whose maps are correct: unmapped, mapped subsets /
+   supersets with repeats / permutations, internal basins) keeps the store
+   consistent and acyclic. *)
+Theorem C07_empty_store_sound :
+  forall (truth : Z -> list Z) (omap : nat -> list Z),
+    store_sound truth omap [] /\ scoped [].
+Proof. exact store_sound_nil. Qed.
+Print Assumptions C07_empty_store_sound.
+
+Theorem C07_written_file_store_sound :
+  forall (truth : Z -> list Z) (omap : nat -> list Z) (st : store) (n : Z)
+         (innate : fdata) (sbs : list sbasin) (fl' : file) (new : list Z),
+    store_sound truth omap st ->
+    scoped st ->
+    (forall f d, assoc f innate = Some d ->
+                 gather (truth f) new = Some d) ->
+    Forall (request_ok truth omap st new) sbs ->
+    store_basins {| f_n := n; f_innate := innate; f_slots := empty_slots;
+                    f_basins := [] |} sbs = Some fl' ->
+    store_sound truth (omap_ext omap (length st) new) (st ++ [Some fl']) /\
+    scoped (st ++ [Some fl']).
+Proof. exact write_store_sound. Qed.
+Print Assumptions C07_written_file_store_sound.
+
+(* The fuel of lookup is never exhausted: on acyclic stores any two amounts
+   of fuel above the file's position give the same answer (fuel_of st is
+   above every position). *)
+Theorem C07_fuel_irrelevant :
+  forall (st : store),
+    scoped st -> internal_listed st ->
+    forall (fid : nat) (f : Z) (fu1 fu2 : nat),
+      (fid < fu1)%nat -> (fid < fu2)%nat ->
+      lookup fu1 st fid f = lookup fu2 st fid f /\
+      has_feat fu1 st fid f = has_feat fu2 st fid f.
+Proof. exact fuel_irrelevant. Qed.
+Print Assumptions C07_fuel_irrelevant.
+
+(* Completeness: a feature that a file basin offers (listed, or everything
+   when nothing is listed) and that the basin's file can read IS returned by
+   the referrer, and it is the origin's feature at the referrer's events. *)
+Theorem C07_provided_feature_is_returned :
+  forall (truth : Z -> list Z) (omap : nat -> list Z) (st : store)
+         (fid : nat) (fl : file) (b : bdef) (f : Z) (dt : list Z),
+    store_sound truth omap st ->
+    scoped st -> internal_listed st ->
+    get_file st fid = Some fl ->
+    In b (f_basins fl) ->
+    b_internal b = false ->
+    match b_feats b with Some l => zmem f l = true | None => True end ->
+    resolve st (b_target b) f = Some dt ->
+    exists d, resolve st fid f = Some d /\
+              gather (truth f) (omap fid) = Some d.
+Proof. exact resolve_complete_file. Qed.
+Print Assumptions C07_provided_feature_is_returned.
+
+(* ... likewise for a feature stored in an internal basin. *)
+Theorem C07_internal_feature_is_returned :
+  forall (truth : Z -> list Z) (omap : nat -> list Z) (st : store)
+         (fid : nat) (fl : file) (b : bdef) (f : Z) (l di : list Z),
+    store_sound truth omap st ->
+    get_file st fid = Some fl ->
+    In b (f_basins fl) ->
+    b_internal b = true ->
+    b_feats b = Some l -> zmem f l = true ->
+    assoc f (b_int b) = Some di ->
+    exists d, resolve st fid f = Some d /\
+              gather (truth f) (omap fid) = Some d.
+Proof. exact resolve_complete_internal. Qed.
+Print Assumptions C07_internal_feature_is_returned.
+
+(* Referrer and origin moved together: with the absolute and the relative
+   location stored by the writer, the lookup of basins_retrieve finds the
+   same dataset before (absolute entry) and after the move (relative entry,
+   the old absolute location being gone). *)
+Theorem C07_moved_together :
+  forall (fs fs' : fsys) (ok : Z -> bool) (dir dir' rel : list Z) (id : Z),
+    fs (dir ++ rel) = Some id -> ok id = true ->
+    fs' (dir' ++ rel) = fs (dir ++ rel) ->
+    fs' (dir ++ rel) = None ->
+    find_basin fs ok dir [LAbs (dir ++ rel); LRel rel]
+    = Some (0, dir ++ rel) /\
+    find_basin fs' ok dir' [LAbs (dir ++ rel); LRel rel]
+    = Some (1, dir' ++ rel) /\
+    fs' (dir' ++ rel) = Some id.
+Proof. exact moved_together. Qed.
+Print Assumptions C07_moved_together.
 
 (* A copy of a file (compress, repack, rtdc_copy with a feature selection;
    basin_definition_copy rewrites internal basins to the copied features)
